@@ -88,10 +88,11 @@ def shrink(req):
 SPEC = {
     "id": "C15",
     "gens": ["Reserved"],
-    "lean_modules": ["RsslVerif.Thm.C15"],
+    "lean_modules": ["RsslVerif.Thm.C15"],  # imports Lemmas.Names, Lemmas.NamesTables (decide facts, cached)
     "theorems": [T + n for n in [
         "source_fingerprints", "reserved_complete_partial", "not_listed_exact", "reserved_incomplete_hlsl",
-        "reserved_incomplete_msl", "never_reserved", "injective_per_scope", "verbatim_unconditional_false",
+        "reserved_incomplete_msl", "never_reserved", "injective_per_scope", "verbatim_partial",
+        "renaming_equivariant_partial", "scope_loop_terminates", "verbatim_unconditional_false",
         "local_may_capture_global"]],
     "harness": "c15",
     "nontrivial": nontrivial,
